@@ -90,7 +90,7 @@ class SelOrder:
         return {(fam, how if sel == "full" else f"{sel}|{how}", mem) for fam, sel, mem in facts}
 
     def facts(self, e, at, depth=0):
-        if depth > 8 or e is None:
+        if depth > 20 or e is None:
             return set()
         if isinstance(e, ast.Name):
             fam = family_of_base(e)
@@ -105,6 +105,22 @@ class SelOrder:
         if isinstance(e, ast.Attribute):
             if e.attr in BLOCK_ATTRS:
                 fam = family_of_base(e.value)
+                if fam and isinstance(e.value, ast.Name) and self.b.get(e.value.id):
+                    # the struct itself may have been rebuilt with a narrowed block list: `struct = struct._replace(t=at, D=aD)`
+                    res = set()
+                    for st, v, k in self.defs(e.value.id, at):
+                        if k == "param":
+                            res.add((fam, "full", e.attr))
+                        elif k == "assign" and isinstance(v, ast.Call) and isinstance(v.func, ast.Attribute) and v.func.attr == "_replace":
+                            kwv = next((kw.value for kw in v.keywords if kw.arg == e.attr), None)
+                            if kwv is not None:
+                                got = self.facts(kwv, st, depth + 1)
+                                res |= {(fam, sel, e.attr) for f_, sel, m_ in got} or {(fam, "full", e.attr)}
+                            else:
+                                res |= self.facts(ast.Attribute(value=v.func.value, attr=e.attr, ctx=ast.Load()), st, depth + 1)
+                        else:
+                            res.add((fam, "full", e.attr))
+                    return res or {(fam, "full", e.attr)}
                 if fam:
                     return {(fam, "full", e.attr)}
             if e.attr == "slices":
@@ -142,6 +158,12 @@ class SelOrder:
             nm = A.call_name(e) or ""
             if nm in PRESERVING and e.args:
                 return self.facts(e.args[0], at, depth + 1)
+            if nm == "zip" and e.args:
+                # a sequence of tuples over parallel sequences: as a sequence it went through what its arguments went through
+                out = set()
+                for a_ in e.args:
+                    out |= self.facts(a_, at, depth + 1)
+                return out
         return set()
 
     def check(self):
